@@ -35,6 +35,11 @@ def install(w):
         raise Unsupported("at() on %r" % (seq,))
     f["at"] = at
 
+    def work(ex, fr):
+        """ghost counter: conversion attempts so far (calls of TypeTransformer.__call__ / apply, by their contracts)"""
+        return VInt(ex.ghost_get("work"))
+    f["work"] = work
+
     def iff(ex, fr, a, b):
         return VBool(ex.truthy(a) == ex.truthy(b))
     f["iff"] = iff
